@@ -71,6 +71,10 @@ CHECKS.update({
    text="Four structural necessary conditions of the adaptive container's losslessness: header byte == reported type == dispatched type (SSA identity); encode and decode dispatch tables have equal case sets, each case calls the encoder/decoder of the same codec family, and every value the selector can return is an explicit case of both; every path of the selection decision tree to BITMAP establishes fitsInBitmapRange, isSorted, uniqueCount == count and count below the exact-count threshold; no length-taking sub-decoder receives a literal length. Losslessness of each sub-codec for every array is NOT decided (C02's reason).",
    note=TB + "2 known findings (literal 1 MiB length for the DICT and BITMAP sub-decoders: the API has no input length).",
    tech="static analysis: SSA identity, switch-table and path-condition extraction on LLVM IR"),
+ "C07": dict(engine="E-TABLE + E-RANGE", cat="other", ref="DESIGN.md 4/C07",
+   text="Three range/table clauses only: (T1) the fcmp decision chain of varintFloatEncodeAuto, read as a table error-interval -> precision, never selects a lossy mode whose published bound 2^-mantissaBits exceeds the interval's infimum; (T2) interval evaluation of truncateMantissa over all normal 53-bit mantissas shows the rounded result fits the stored field for each lossy width; (T3) the common-exponent delta is range-guarded before truncation to a byte. FULL-mode bit-exactness, special values and the relative error bound itself are NOT decided (value-level).",
+   note=TB + "1 known finding (T3: one-byte exponent delta, a format limitation).",
+   tech="static analysis: decision-table extraction and interval evaluation on LLVM IR"),
 })
 NA = {
  "C02": "losslessness of array codecs is value-level equality after arithmetic; no clause has a shape in the code that static analysis can decide (DESIGN.md 4/C02)",
